@@ -245,6 +245,21 @@ pub fn run(ctx: &Ctx) -> i32 {
         subs.push(all_pairs("strings-unicode-digits", &rule, &items, &show, &lib_cmp, Some(&ref_cmp), None));
     }
 
+    // segment lengths: letters and digits in runs of every length around the sizes of machine words and small buffers
+    {
+        let lens: Vec<usize> = (1..=40).chain([63, 64, 65, 127, 128, 129, 255, 256, 257]).collect();
+        let mut items: Vec<String> = vec![];
+        for (u, last) in [("a", "b"), ("7", "8"), ("0", "1")] {
+            for l in &lens {
+                items.push(u.repeat(*l));
+                items.push(format!("{}{}", u.repeat(*l - 1), last));
+                items.push(format!("{}.{}", u.repeat(*l), last));
+            }
+        }
+        let rule = format!("all ordered pairs of {} strings: runs of a letter, of a non-zero digit and of zeros of every length 1..40 and 63…65, 127…129, 255…257 — plain, with the last character changed, and followed by a further segment (segments that differ only behind the 16th, 32nd, 64th … character; numbers beyond 64 and 128 bits)", items.len());
+        subs.push(all_pairs("segment-lengths", &rule, &items, &show, &lib_cmp, Some(&ref_cmp), None));
+    }
+
     // the whole character domain: every Unicode scalar value (except NUL, §9) in each role a character can play
     {
         use vlib::par::par_fold;
